@@ -7,44 +7,38 @@ Each k is a fresh symbolic input "<name>.k<j>", so the solver chooses the refill
 """
 import io, z3
 from .core import SymInt, SymBool, W, bv, ctx, Abort
-from .mem import SymBuf, SymSeq, fresh_array, zx, lo8, _c, _norm, IDX
+from .mem import SymBuf, SymSeq, Arr, Segs, zx, lo8, _c, _norm, k8, k80, pos
+from .core import iadd, isub
 
 
 class SymSink:
-    """Collects everything written: out = z3 array, length = SymInt|int."""
+    """Collects everything written as a Segs (segments with symbolic lengths)."""
 
     def __init__(self, env, name="sink"):
         self.env, self.name = env, name
-        self.arr = z3.K(IDX, z3.BitVecVal(0, 8))
-        self.length = 0
+        self.segs = Segs()
         self.writes = 0
         self.flushes = 0
         self.closed = False
 
+    @property
+    def length(self):
+        return self.segs.length
+
     def write(self, data):
         self.writes += 1
-        pos = bv(self.length)
         if isinstance(data, (bytes, bytearray, memoryview)):
             data = bytes(data)
-            for k, b in enumerate(data):
-                self.arr = z3.Store(self.arr, pos + z3.BitVecVal(k, W), z3.BitVecVal(b, 8))
-            n = len(data)
-        elif isinstance(data, (SymSeq, SymBuf)):
+            self.segs.append_cells([k8(b) for b in data], len(data))
+            return len(data)
+        if isinstance(data, (SymSeq, SymBuf)):
             if isinstance(data, SymBuf):
                 data = SymSeq(data.arr, 0, data.n, data.n, None)
             src = data.array()
-            cl = _c(data.ln)
-            for k in range(data.cap):
-                p = pos + z3.BitVecVal(k, W)
-                sb = z3.Select(src, bv(data.lo) + z3.BitVecVal(k, W))
-                if cl is None:
-                    sb = z3.If(z3.BitVecVal(k, W) < bv(data.ln), sb, z3.Select(self.arr, p))
-                self.arr = z3.Store(self.arr, p, sb)
-            n = data.ln
-        else:
-            raise TypeError("a bytes-like object is required, not %r" % type(data))
-        self.length = _norm(SymInt(bv(self.length) + bv(n)))
-        return n
+            lo = pos(data.lo)
+            self.segs.append(lambda rel: src.select(iadd(lo, rel)), data.ln, data.cap)
+            return data.ln
+        raise TypeError("a bytes-like object is required, not %r" % type(data))
 
     def flush(self):
         self.flushes += 1
@@ -54,10 +48,10 @@ class SymSink:
 
     # harness-side accessors
     def at(self, i):
-        return SymInt(zx(z3.Select(self.arr, bv(i))))
+        return SymInt(zx(self.segs.term_at(i)))
 
     def term_at(self, i):
-        return z3.Select(self.arr, bv(i))
+        return self.segs.term_at(i)
 
 
 class SymSource(io.BufferedIOBase):
@@ -78,26 +72,24 @@ class SymSource(io.BufferedIOBase):
             view = SymSeq(None, 0, view.n, view.n, live=view)
         if not isinstance(view, SymSeq) or view.live is None:
             raise Abort("unsupported", "readinto on a native buffer")
-        rem = bv(self.total) - bv(self.pos)
-        vl = bv(view.ln)
-        avail = z3.If(vl < rem, vl, rem)
+        remp = isub(pos(self.total), pos(self.pos))
+        rem, vl = bv(remp), bv(view.ln)
         if self.mode == "full":
-            k = _norm(SymInt(avail))
+            # fork on "buffer filled completely" vs "end of data reached" (keeps positions linear)
+            d = remp - pos(view.ln) if isinstance(remp, int) and isinstance(pos(view.ln), int) else None
+            fills = (d >= 0) if d is not None else c.decide(vl <= rem)
+            k = pos(view.ln) if fills else remp
         else:
+            avail = z3.If(vl < rem, vl, rem)
             kv = self.env.int("%s.k%d" % (self.name, self.calls), 0, max(view.cap, 0))
             c.assume(z3.And(bv(kv) <= avail, z3.Implies(avail > 0, bv(kv) >= 1)))
             k = kv
         self.calls += 1
         buf = view.live
-        bound = min(view.cap, self.cap)
-        ck = _c(k)
-        for j in range(bound if ck is None else min(ck, bound)):
-            p = bv(view.lo) + z3.BitVecVal(j, W)
-            b = self.data_at(SymInt(bv(self.pos) + z3.BitVecVal(j, W)))
-            if ck is None:
-                b = z3.If(z3.BitVecVal(j, W) < bv(k), b, z3.Select(buf.arr, p))
-            buf.arr = z3.Store(buf.arr, p, b)
-        self.pos = _norm(SymInt(bv(self.pos) + bv(k)))
+        pos0 = pos(self.pos)
+        data_at = self.data_at
+        buf.arr = buf.arr.copy_in(view.lo, k, lambda rel: data_at(iadd(pos0, rel)))
+        self.pos = iadd(pos0, pos(k))
         return k
 
     def close(self):
@@ -126,7 +118,7 @@ class NatSink:
         return len(self.data)
 
     def at(self, i):
-        return self.data[i] if 0 <= i < len(self.data) else -1
+        return self.data[i] if 0 <= i < len(self.data) else 0
 
 
 class NatSource(io.BufferedIOBase):
